@@ -61,20 +61,6 @@ Templates ==
      [Base EXCEPT !.dom = "s1", !.exp = "p", !.expI = TRUE, !.rs = "r2"],
      [Base EXCEPT !.sip = "p", !.pfx = "s", !.nr = TRUE],
      [Base EXCEPT !.dom = "s1", !.exp = "p", !.pfx = "s", !.nr = TRUE, !.pfxI = TRUE]}   \* order-dependent (OrderAmb)
-\* random routes (simulation mode): every field drawn independently
-RandomRoute ==
-    [net |-> RandomElement({"", "", "tcp", "udp"}), cl |-> RandomElement({"own", "own", "own", "reject"}),
-     rs |-> RandomElement(RsVars),
-     srv |-> RandomElement(SrvVars \cup {"-", "-"}), srvI |-> RandomElement(BOOLEAN),
-     usr |-> RandomElement(UsrVars \cup {"-", "-"}), usrI |-> RandomElement(BOOLEAN),
-     sp |-> RandomElement(PortVars \cup {"-", "-"}), spI |-> RandomElement(BOOLEAN),
-     sip |-> RandomElement(SipVars \cup {"-", "-"}), sipI |-> RandomElement(BOOLEAN),
-     tp |-> RandomElement(PortVars \cup {"-", "-"}), tpI |-> RandomElement(BOOLEAN),
-     dom |-> RandomElement(DomVars \cup {"-"}), domI |-> RandomElement(BOOLEAN),
-     exp |-> RandomElement(ExpVars \cup {"-", "-"}), expI |-> RandomElement(BOOLEAN),
-     pfx |-> RandomElement(PfxVars \cup {"-"}), pfxI |-> RandomElement(BOOLEAN), nr |-> RandomElement(BOOLEAN)]
-RandomRoutes == {RandomRoute}
-
 \* route lists drawn by the check script from the variant names (seeded): 0..MaxRoutes routes, every field
 \* independent.  R(...) is positional to keep the generated text short.
 R(net, cl, rs, srv, srvI, usr, usrI, sp, spI, sip, sipI, tp, tpI, dom, domI, exp, expI, pfx, pfxI, nr) ==
@@ -123,11 +109,13 @@ AskSeq == SetToSeq(MCAsks)
 -----------------------------------------------------------------------------
 (* emission *)
 \* one outcome per ask, in AskSeq order: "<decl>", "<decl>~<impl>" when the evaluation order is free
-\* (OrderAmb), prefixed by "?" when the documentation does not determine the answer (Soft)
+\* (OrderAmb), prefixed by "?" when the documentation does not determine the answer (Soft), followed by
+\* "/dns" or "/other" (how DialResultCodeFromError classifies the failed lookup) when an error is involved
 Enc(rs, br, amb, d, a) ==
     LET dv == Decl(rs, d, a)
         iv == IF amb THEN ImplBuilt(br, d, a) ELSE dv     \* outside MayOrderAmb, ImplRefinesDecl gives iv = dv
     IN (IF Soft(rs, d, a) THEN "?" ELSE "") \o dv \o (IF iv # dv THEN "~" \o iv ELSE "")
+          \o (IF dv = "error" \/ iv = "error" THEN "/" \o ErrClass(rs, a) ELSE "")
 CaseOf(rs, d) == LET seq == AskSeq
                      br == BuildRoutes(rs)
                      amb == \E j \in 1 .. Len(rs) : MayOrderAmb(rs[j])
